@@ -96,6 +96,17 @@ def ref_eval(tree, leaves):
             v = np.asarray(leaves[n[1]], dtype=ref.LD)
         elif n[0] == 'mul':
             v = ev(n[1]) @ ev(n[2])
+        elif n[0] == 'pow':
+            a = ev(n[1])
+            if n[2] < 0:
+                k = a.shape[0] - 1
+                ai = np.eye(k + 1, dtype=ref.LD)
+                ai[:k, :k] = a[:k, :k].T
+                ai[:k, k] = -(a[:k, :k].T @ a[:k, k])
+                a = ai
+            v = np.eye(a.shape[0], dtype=ref.LD)
+            for _ in range(abs(n[2])):
+                v = v @ a
         else:
             a = ev(n[1])
             k = a.shape[0] - 1
@@ -121,6 +132,17 @@ def rep_eval(tree, leaves, rep, on_node):
             b = ev(n[2])
             v = a * b
             op = 'mul'
+        elif n[0] == 'pow':
+            # an integer power: the ** operator where the representation has one, the repeated product otherwise
+            a = ev(n[1])
+            if rep in ('Twist3', 'Twist2', 'UDQ'):
+                b_ = inv(a) if n[2] < 0 else a
+                v = b_
+                for _ in range(abs(n[2]) - 1):
+                    v = v * b_
+            else:
+                v = a ** n[2]
+            op = 'pow'
         else:
             v = inv(ev(n[1]))
             op = 'inv'
@@ -133,6 +155,8 @@ def rep_eval(tree, leaves, rep, on_node):
 def build_tree(rng, nleaves, depth):
     if depth <= 0 or rng.random() < 0.2:
         return ['leaf', int(rng.integers(nleaves))]
+    if rng.random() < 0.1:
+        return ['pow', build_tree(rng, nleaves, depth - 2), int([-5, -4, -3, -2, 2, 3, 4, 5, 6, 8][rng.integers(10)])]
     if rng.random() < 0.3:
         return ['inv', build_tree(rng, nleaves, depth - 1)]
     return ['mul', build_tree(rng, nleaves, depth - 1), build_tree(rng, nleaves, depth - 1)]
